@@ -38,7 +38,19 @@ pub fn generate(prop: &str, scenario: &str, seed: u64, run: u64) -> (Config, Vec
             if systematic && run % 2 == 0 && run / 2 < SYSTEMATIC_HIST {
                 systematic_hist(prop, run / 2)
             } else {
-                gen_hist(prop, &mut rng)
+                let (cfg, mut ops) = gen_hist(prop, &mut rng);
+                if prop == "C01" {
+                    // the code point of the run: every scalar value below U+0530 gets its turn in a
+                    // title and in queries (class lookup, splitting, folding and case mapping all
+                    // branch on the code point)
+                    if let Some(cp) = char::from_u32((run % 0x530) as u32) {
+                        ops.push(Op::Add { s: 0, id: 9_999_999, title: format!("ab{}cd {} x{}", cp, cp, cp), rating: 1 });
+                        ops.push(Op::Search { s: 0, q: format!("ab{}c", cp), deep: false });
+                        ops.push(Op::Search { s: 0, q: format!("{}", cp), deep: false });
+                        ops.push(Op::Search { s: 0, q: format!("x{} {}", cp, cp), deep: false });
+                    }
+                }
+                (cfg, ops)
             }
         }
         "registry" => gen_registry(prop, &mut rng),
@@ -389,6 +401,12 @@ fn gen_hist(prop: &str, rng: &mut Rng) -> (Config, Vec<Op>) {
                 if f_pollute && rng.chance(1, 4) {
                     ops.push(pollute_op(rng, g.thread));
                 }
+                if f_repeat && rng.chance(1, 40) {
+                    // many calls in a row: counters that wrap, idle heuristics, caches that fill up
+                    let n = *rng.pick(&[255usize, 256, 257, 1023, 1024, 1025, 4097]);
+                    let q = g.query(rng, &others);
+                    ops.push(Op::SearchBurst { s, q, n });
+                }
                 push_search(rng, prop, g, &others, &mut ops, f_repeat);
             }
             5 => {
@@ -538,9 +556,11 @@ fn gen_replica(_prop: &str, rng: &mut Rng) -> (Config, Vec<Op>) {
     let pool = make_pool(rng, &lang, pool_size);
     let mut msgs: Vec<(usize, String, usize)> = Vec::new();
     let mut ratings: Vec<usize> = Vec::new();
+    let big_ratings = rng.chance(1, 10);
     for i in 0..n {
         let r = loop {
-            let r = if rng.chance(1, 4) { rng.below(1 << 31) } else { rng.below(64) };
+            // C07 does not bound ratings: a few runs use values far beyond 2^31
+            let r = if big_ratings { (1usize << 31) - 2 + rng.below(8) + if rng.chance(1, 2) { rng.below(1 << 40) } else { 0 } } else if rng.chance(1, 4) { rng.below(1 << 31) } else { rng.below(64) };
             if !ratings.contains(&r) {
                 break r;
             }
@@ -591,7 +611,15 @@ fn gen_replica(_prop: &str, rng: &mut Rng) -> (Config, Vec<Op>) {
                 let t = rng.pick(&delivered_titles).clone();
                 type_query(rng, &t)
             };
-            ops.push(Op::Search { s, q, deep: false });
+            // ... sometimes under a temporarily smaller (or zero, or huge) limit
+            if rng.chance(1, 3) {
+                let tmp = *rng.pick(&[0usize, 1, 1, 2, 65536]);
+                ops.push(Op::SetLimit { s, limit: tmp });
+                ops.push(Op::Search { s, q, deep: false });
+                ops.push(Op::SetLimit { s, limit });
+            } else {
+                ops.push(Op::Search { s, q, deep: false });
+            }
         }
         if f_pollute && rng.chance(1, 12) {
             ops.push(pollute_op(rng, thread_of[s]));
@@ -680,9 +708,16 @@ fn gen_scratch(_prop: &str, rng: &mut Rng, run: u64) -> (Config, Vec<Op>) {
         for k in 0..n {
             // lengths alternate short and long so that growth, re-init and shrink-after-grow occur
             let long = if rng.chance(1, 5) { rng.chance(1, 2) } else { k % 2 == 1 };
-            let alph = *rng.pick(&["aebc1_", "aebc1_", "ab", "abcdefghijklmnop", "aeiou", "bcdfg", "a1_", "аеёбв"]);
+            let alph = *rng.pick(&["aebc1_", "aebc1_", "ab", "abcdefghijklmnop", "aeiou", "bcdfg", "a1_", "аеёбв", "abcdefghijklmnopqrstuvwxyz", "abcdefghijklmnopqrstuvwxyz0123456789äöüßабвгдеёжзийклмнопрстуфхцчшщ"]);
             let a = if long { synth_word(rng, alph, 15, 70) } else { synth_word(rng, alph, 0, 4) };
-            let b = match rng.below(6) {
+            let b = match rng.below(8) {
+                6 => {
+                    // a prefix or a suffix of the first word
+                    let cs: Vec<char> = a.chars().collect();
+                    let k = rng.range(0, cs.len());
+                    if rng.chance(1, 2) { cs[..k].iter().collect() } else { cs[cs.len() - k..].iter().collect() }
+                }
+                7 => synth_word(rng, alph, 1, 3),
                 0 => a.clone(),
                 1 | 2 => mutate(rng, &a, alph),
                 3 => {
@@ -696,6 +731,16 @@ fn gen_scratch(_prop: &str, rng: &mut Rng, run: u64) -> (Config, Vec<Op>) {
                 5..=7 => Op::Jacc { t, a, b },
                 _ => Op::WMatch { t, r: a, q: b, fin: rng.chance(1, 2) },
             });
+        }
+        // many identical cheap calls in a row, right after something else and right before something
+        // else: counters that wrap at 2^8 / 2^16, idle heuristics that fire after 2^10 quiet calls
+        if rng.chance(1, 6) && !plan.is_empty() {
+            let n = if rng.chance(1, 4) { *rng.pick(&[65534usize, 65535, 65536, 65537]) } else { *rng.pick(&[254usize, 255, 256, 257, 1023, 1024, 1025, 2048, 4100]) };
+            let alph = *rng.pick(&["aebc1_", "ab", "bcdfg"]);
+            let a = synth_word(rng, alph, 1, 4);
+            let b = mutate(rng, &a, alph);
+            let at = rng.range(1, plan.len());
+            plan.insert(at, Op::Burst { t, ca: class_string(&a), cb: class_string(&b), a, b, n });
         }
         plans.push(plan);
     }
